@@ -5,6 +5,7 @@ from ..core.program import norm, own_nodes, own_statements
 from ..core.world import world
 from ..rules import arrays as A
 from ..rules import generic as G
+from ..rules import extra as X
 
 EXPLANATION = (
     "Static analysis of compute_pianoroll / _make_pianoroll / compute_pitch_class_pianoroll / pianoroll_to_notearray. "
@@ -157,6 +158,7 @@ def run(ctx):
     rule_view(ctx)
     rule_plumbing(ctx)
     rule_range(ctx)
+    X.rule_min_one_frame(ctx)
     fs = [ctx.prog.func(f"{M}:{n}") for n in ("compute_pianoroll", "_make_pianoroll", "compute_pitch_class_pianoroll",
                                               "pianoroll_to_notearray", "slice_notearray_by_time", "get_time_units_from_note_array")]
     G.rule_F4d(ctx, fs, "piano roll", floor=3)
